@@ -2,6 +2,7 @@ package checks
 
 import (
 	"bytes"
+	"encoding/json"
 	"fmt"
 	"os"
 	"os/exec"
@@ -32,10 +33,17 @@ type c12Case struct {
 	Delay    bool          `json:"delay,omitempty"` // delay bounding (every non-default choice counts) instead of preemption bounding
 	Shard    int           `json:"shard,omitempty"` // this case explores the Shard-th of Shards parts of the schedule tree
 	Shards   int           `json:"shards,omitempty"`
+	// Cold: explored in a process that has done nothing else before (every package-level variable in its
+	// initial state); races, panics and deadlocks only
+	Cold bool `json:"cold,omitempty"`
 }
 
 func (c *c12Case) Key() string {
-	return fmt.Sprintf("%s|%q|%q|%v|%d|%v|%d/%d", c.Scenario, c.A, c.B, c.Script, c.Bound, c.Delay, c.Shard, c.Shards)
+	k := fmt.Sprintf("%s|%q|%q|%v|%d|%v|%d/%d", c.Scenario, c.A, c.B, c.Script, c.Bound, c.Delay, c.Shard, c.Shards)
+	if c.Cold {
+		k += "|cold"
+	}
+	return k
 }
 
 // lockedBuf is an output writer that is safe for concurrent use (its lock is visible to the scheduler).
@@ -192,14 +200,18 @@ func c12Exec(cs fw.Case) *fw.Fail {
 	if f := requireInstrumented(); f != nil {
 		return f
 	}
-	// sequential reference results
+	// sequential reference results: computed only after the first explored execution has been judged for
+	// races, so that state which the package builds on first use (a cache, a growing scratch buffer) is
+	// built INSIDE a scheduled execution at least once per process
 	var seq [2]string
-	{
+	seqKnown := c.Cold
+	computeSeq := func() {
 		var r [2]string
 		body := c12Body(c, &r)
 		// run the same body outside the scheduler: Go() is then a plain goroutine, WG a plain wait
 		body()
 		seq = r
+		seqKnown = true
 	}
 	var res [2]string
 	body := func() {
@@ -222,6 +234,14 @@ func c12Exec(cs fw.Case) *fw.Fail {
 			}
 			return "race", "data race (unordered conflicting accesses): " + strings.Join(s, "; ")
 		}
+		if c.Cold {
+			return "race-free", ""
+		}
+		if !seqKnown {
+			got := res
+			computeSeq()
+			res = got
+		}
 		if res != seq {
 			return "influence", fmt.Sprintf("results of the concurrent calls differ from their sequential results:\n  concurrent: %q\n  sequential: %q", res, seq)
 		}
@@ -230,7 +250,7 @@ func c12Exec(cs fw.Case) *fw.Fail {
 	total := 0
 	var steps int64
 	for b := 0; b <= c.Bound; b++ {
-		x := &vsched.Explorer{Bound: b, Delay: c.Delay, RootShard: c.Shard, RootShards: c.Shards, Opt: vsched.Options{Races: true}, Body: body, Check: check, Stop: func() bool { fw.Heartbeat(); return fw.Cur != nil && fw.Cur.Expired() }, MaxExec: maxExecPerCase()}
+		x := &vsched.Explorer{Bound: b, Delay: c.Delay, RootShard: c.Shard, RootShards: c.Shards, NoConfirm: c.Cold, Opt: vsched.Options{Races: true}, Body: body, Check: check, Stop: func() bool { fw.Heartbeat(); return fw.Cur != nil && fw.Cur.Expired() }, MaxExec: maxExecPerCase()}
 		x.Explore()
 		total = x.Executions
 		steps = x.Steps + int64(x.Executions)
@@ -253,11 +273,65 @@ func c12Exec(cs fw.Case) *fw.Fail {
 	fw.Tally("transitions", steps)
 	fw.Tally("traces_validated", int64(total))
 	fw.Tally("race_events", int64(events))
+	if c.Cold {
+		// (in the child process) report the counts to the parent
+		fmt.Printf("COLD-OK %d %d %d\n", total, steps, events)
+		return nil
+	}
 	fw.TallyOutcome("race-free:" + c.Scenario)
 	if events > 0 {
 		fw.TallyNontrivial()
 	}
 	return nil
+}
+
+// subC12Cold runs one scenario in a fresh process.
+var subC12Cold = &fw.Sub{Name: "c12.cold", New: func() fw.Case { return &c12Case{} }, Exec: func(cs fw.Case) *fw.Fail {
+	c := cs.(*c12Case)
+	js, _ := json.Marshal(c)
+	cmd := exec.Command(os.Args[0], "c12-cold")
+	cmd.Stdin = bytes.NewReader(js)
+	var out bytes.Buffer
+	cmd.Stdout = &out
+	cmd.Stderr = &out
+	err := cmd.Run()
+	txt := out.String()
+	if i := strings.Index(txt, "COLD-FAIL "); i >= 0 {
+		return fw.Failf("no data race, panic or deadlock on any schedule of a process that starts cold", "%s", strings.TrimSpace(txt[i+len("COLD-FAIL "):]))
+	}
+	var total, steps, events int64
+	if i := strings.Index(txt, "COLD-OK "); i >= 0 && err == nil {
+		fmt.Sscan(txt[i+len("COLD-OK "):], &total, &steps, &events)
+	} else {
+		return fw.Failf("the fresh process completes", "err=%v output %q", err, fw.Trunc(txt, 400))
+	}
+	fw.Tally("schedules", total)
+	fw.Tally("states", total)
+	fw.Tally("transitions", steps)
+	fw.Tally("traces_validated", total)
+	fw.Tally("race_events", events)
+	fw.Tally("cold_processes", 1)
+	fw.TallyOutcome("race-free-cold:" + c.Scenario)
+	if events > 0 {
+		fw.TallyNontrivial()
+	}
+	return nil
+}}
+
+func init() {
+	fw.Commands["c12-cold"] = func(args []string) int {
+		var c c12Case
+		if err := json.NewDecoder(os.Stdin).Decode(&c); err != nil {
+			fmt.Println("bad case:", err)
+			return 2
+		}
+		c.Cold = true
+		if f := fw.Guard(func() *fw.Fail { return c12Exec(&c) }); f != nil {
+			fmt.Printf("COLD-FAIL %s\n", strings.ReplaceAll(f.Observed, "\n", " "))
+			return 0
+		}
+		return 0
+	}
 }
 
 var subC12 = &fw.Sub{Name: "c12.races", New: func() fw.Case { return &c12Case{} }, Exec: func(cs fw.Case) *fw.Fail {
@@ -268,6 +342,13 @@ var subC12 = &fw.Sub{Name: "c12.races", New: func() fw.Case { return &c12Case{} 
 type c12Splitter struct{ *fw.Ctx }
 
 func (s *c12Splitter) Do(sub *fw.Sub, cs *c12Case) {
+	// once more in a process of its own, cold, with at most one preemption / delay
+	cold := *cs
+	cold.Cold = true
+	if cold.Bound > 1 {
+		cold.Bound = 1
+	}
+	s.Ctx.Do(subC12Cold, &cold)
 	const parts = 8
 	for k := 0; k < parts; k++ {
 		cc := *cs
@@ -329,8 +410,8 @@ func init() {
 		Level: "model_checking",
 		Rule: "controlled-scheduler exploration with a happens-before race detector: the package is rewritten so that every access to a package-level variable, to an addressable field of a struct type of package bcl and to a captured local is logged; vector clocks advance only on the program's own synchronisation (channel send->receive, close->receive, go->start, unlock->lock, WaitGroup), not on scheduler hand-offs. " +
 			"Harness bodies: (a) the ParseFile pipeline on multi-chunk inputs whose first chunk has syntax errors while later chunks hold newlines (parser formats diagnostics while the lexer appends line ends), valid multi-chunk input, early lexical failure; (b) two concurrent callers: Parse||Parse, ParseFile||ParseFile, Interpret||Interpret on different inputs, Unmarshal||Unmarshal, Execute||Execute (also with per-call loggers/outputs/options), Execute||Dump and Dump||Dump on one shared Prog with a locked output writer, LoadProg+Execute pairs, Bind||Bind. " +
-			"ALL schedules with <=B preemptions (quick 1, thorough 2; Execute pairs B+1) are executed for the pipeline and the Execute/Dump/Bind pairs; the Parse/ParseFile/Interpret pairs (7-9 goroutines) use delay bounding: a deterministic scheduler plus every placement of <=B+1 deviations; on each: no unordered conflicting access pair, no deadlock/panic, and each call's result equals its sequential result.",
-		Subs:           []*fw.Sub{subC12},
+			"ALL schedules with <=B preemptions (quick 1, thorough 2; Execute pairs B+1) are executed for the pipeline and the Execute/Dump/Bind pairs; the Parse/ParseFile/Interpret pairs (7-9 goroutines) use delay bounding: a deterministic scheduler plus every placement of <=B+1 deviations; on each: no unordered conflicting access pair, no deadlock/panic, and each call's result equals its sequential result. Every scenario is explored once more (<=1 preemption) in a process of its own that has done nothing before, so that state built on first use is built inside a scheduled execution.",
+		Subs:           []*fw.Sub{subC12, subC12Cold},
 		BudgetQuick:    100,
 		BudgetThorough: 1500,
 		Assumptions: []string{"a race is reported only if both accesses are instrumented (fields of bcl structs, package variables, captured locals; element accesses count as accesses of their holder); the supplementary free-running race-detector pass covers the rest by sampling",
@@ -379,6 +460,8 @@ func init() {
 			c.Do(subC12, &c12Case{Scenario: "unmarshal2", A: "def c11target \"nm\" { x = 3 }\nbind c11target -> struct", B: "def c11target { x = 4; y = 5 }\nprint 1\nbind c11target -> struct", Bound: bound + 1, Delay: true})
 			c.Do(subC12, &c12Case{Scenario: "load2", A: "var a = 1\nprint a + 1\ndef b \"n\" { x = a }\nbind b -> struct", Bound: bound + 1})
 			c.Do(subC12, &c12Case{Scenario: "dump2", A: "var a = 1\nprint a + 1\ndef b \"n\" { x = a }\nbind b -> struct", Bound: bound + 1})
+			// string constants longer than any fixed scratch size (a shared, growing buffer would be re-assigned)
+			c.Do(subC12, &c12Case{Scenario: "dump2", A: "print \"" + strings.Repeat("s", 90) + "\"\nprint \"" + strings.Repeat("t", 300) + "\"\ndef b \"" + strings.Repeat("n", 5000) + "\" { x = 1 }", Bound: bound + 1})
 			c.Do(subC12, &c12Case{Scenario: "bind2", A: "def c11target \"nm\" { x = 3 }\nbind c11target -> struct", Bound: bound})
 			c.Bound("preemption_bound", bound)
 		},
